@@ -5,7 +5,7 @@
    Conventions: a value is a list of 64-bit limbs (wf: every limb < 2^64), least significant
    first, limbs_val its number; Wn n = 2^(64 n); v2 x = the 2-state IEEE vector (payload x, no
    x/z); pack_nb_width (8n) w is the packed (byte count, width) argument of the helpers. *)
-From VV Require Import Wide.WideProofs.
+From VV Require Import Wide.WideProofs Wide.ExprEval Wide.ExprEvalProofs.
 Open Scope N_scope.
 
 (* ---------------------------------------------------------------- arithmetic mod 2^(64n) *)
@@ -201,6 +201,15 @@ Theorem C18_is_nonzero_is_truth : forall n a, length a = n ->
   truth (v2 (limbs_val a)) = (if (wide_is_nonzero n a =? 1)%Z then TT else TF).
 Proof. exact wide_is_nonzero_is_truth. Qed.
 
+(* ---------------------------------------------------------------- the reference evaluator
+   (engines stream): its one executable shortcut, clamping a shift amount to the context width,
+   does not change the IEEE result *)
+Theorem C18_ref_shift_clamp : forall sg w a s,
+  s_shl w a (Some s) = s_shl w a (Some (N.min s w)) /\
+  s_shr w a (Some s) = s_shr w a (Some (N.min s w)) /\
+  s_ashr sg w a (Some s) = s_ashr sg w a (Some (N.min s w)).
+Proof. exact shift_clamp_all. Qed.
+
 (* ---------------------------------------------------------------- non-vacuity *)
 (* a 130-bit operand pair in 3 limbs meets every hypothesis above; carries cross both limb
    boundaries, the sign bit (129) is set *)
@@ -231,6 +240,7 @@ Proof. split; reflexivity. Qed.
 Example C18_rel_instances : Z.ltb = Z.ltb \/ Z.ltb = Z.leb \/ Z.ltb = Z.gtb \/ Z.ltb = Z.geb.
 Proof. left. reflexivity. Qed.
 
+Print Assumptions C18_ref_shift_clamp.
 Print Assumptions C18_add.
 Print Assumptions C18_sub.
 Print Assumptions C18_negate.
